@@ -19,6 +19,9 @@
 //	K  hist  step  id  entlen  remarklen  coin  addrs  rows(sub:key:len,...)
 //	F  hist  step  where  what                            a secret was FOUND (never expected)
 //	N  hist  step  needles  haystacks  bytes              scan statistics
+//
+// With -mgr the command runs the keystore MANAGER family instead (several wallets in one
+// KeystoreManager, lines MW / MO): see manager.go.
 package main
 
 import (
@@ -714,6 +717,7 @@ func main() {
 	workers := flag.Int("j", 8, "parallel worker processes")
 	first := flag.Int("first", 0, "index of the first history")
 	worker := flag.Bool("worker", false, "internal: run sequentially and print to stdout")
+	mgr := flag.Bool("mgr", false, "the keystore manager family (several wallets in one manager, see manager.go)")
 	flag.Parse()
 	if !*worker {
 		if err := hist.ParallelSelf(*count, *first, *workers, *outPath, os.Args[1:]); err != nil {
@@ -728,7 +732,12 @@ func main() {
 	for i := 0; i < *count; i++ {
 		var buf bytes.Buffer
 		bw := bufio.NewWriter(&buf)
-		err := runOne(seed, *first+i, bw)
+		var err error
+		if *mgr {
+			err = runManager(seed, *first+i, bw)
+		} else {
+			err = runOne(seed, *first+i, bw)
+		}
 		bw.Flush()
 		w.Write(buf.Bytes())
 		if err != nil {
